@@ -230,7 +230,7 @@ window._content_generation_table = [
 
   dict(
     names = ("cos",),
-    formula = "sin(pi * n / size) ** alpha",
+    formula = "abs(sin(pi * n / size)) ** alpha",
     math = r"\left[ \sin \left( \frac{\pi n}{size} \right) \right]^{\alpha}",
     name = "Cosine to the power of alpha",
     params = """
